@@ -9,7 +9,7 @@
      H empty_json = empty_json_digest   (the digest of "{}" is the constant of image-spec)
    Where a statement needs the digest to be collision-free this is an explicit
    premise of that clause. *)
-From Oras Require Import Base.Prelude Base.Regex Generated.GC19 Model.Pack Proofs.Pack Proofs.PackTime.
+From Oras Require Import Base.Prelude Base.Regex Base.StrCheck Generated.GC19 Model.Pack Proofs.Pack Proofs.PackTime.
 
 (* The media-type check accepts exactly RFC 6838 section 4.2:
    restricted-name "/" restricted-name, each 1..127 characters. *)
@@ -76,6 +76,19 @@ Theorem C19_created_grammar :
   forall s, rfc3339_ok s = true <-> RFC3339_go s.
 Proof. exact rfc3339_ok_spec. Qed.
 Print Assumptions C19_created_grammar.
+
+(* The model of validateRFC3339 is literally the code: time.Parse(time.RFC3339, v) (lenient
+   recogniser) followed by the explicit checks translated from pack.go on every run; those checks
+   are the three expected ones, and the combination equals the strict structural recogniser. *)
+Theorem C19_created_validation_as_in_source :
+  validateRFC3339_checks = expected_strict_checks /\ validateRFC3339_checks_layout = b "time.RFC3339".
+Proof. exact strict_checks_as_modelled. Qed.
+Print Assumptions C19_created_validation_as_in_source.
+
+Theorem C19_created_validation_is_strict :
+  forall s, rfc3339_ok s = rfc3339_gen true s.
+Proof. exact rfc3339_ok_is_strict. Qed.
+Print Assumptions C19_created_validation_is_strict.
 
 (* ... hence refuses everything that is not an RFC 3339 date-time ... *)
 Theorem C19_malformed_created_refused :
